@@ -43,7 +43,7 @@ TSAN_FINE = [
     "-fsanitize=thread",
     "-mllvm", "-tsan-instrument-memory-accesses=1",
     "-mllvm", "-tsan-instrument-func-entry-exit=0",
-    "-mllvm", "-tsan-instrument-memintrinsics=0",
+    "-mllvm", "-tsan-instrument-memintrinsics=1",
 ]
 COMMON = ["-g", "-O1", "-I" + REPO, "-I" + REPO + "/dispenso/third-party", "-I" + VERIF + "/engine",
           "-D" + GUARD, "-pthread", "-fno-omit-frame-pointer", "-Wno-deprecated-declarations"]
@@ -52,8 +52,8 @@ VARIANTS = {
     "dsched": dict(cxx="clang++", std="c++14", flags=TSAN_ATOMICS + SMALL_TUNE + ["-DVF_E1"], link=[], dsched=True),
     "dschedD": dict(cxx="clang++", std="c++14", flags=TSAN_ATOMICS + ["-DVF_E1"], link=[], dsched=True),
     "dsched17": dict(cxx="clang++", std="c++17", flags=TSAN_ATOMICS + SMALL_TUNE + ["-DVF_E1"], link=[], dsched=True),
-    "dschedF": dict(cxx="clang++", std="c++14", flags=TSAN_FINE + SMALL_TUNE + ["-DVF_E1"], link=[], dsched=True),
-    "dschedF17": dict(cxx="clang++", std="c++17", flags=TSAN_FINE + SMALL_TUNE + ["-DVF_E1"], link=[], dsched=True),
+    "dschedF": dict(cxx="clang++", std="c++14", flags=TSAN_FINE + SMALL_TUNE + ["-DVF_E1"], link=[], dsched=True, fine=True),
+    "dschedF17": dict(cxx="clang++", std="c++17", flags=TSAN_FINE + SMALL_TUNE + ["-DVF_E1"], link=[], dsched=True, fine=True),
     "native": dict(cxx="clang++", std="c++14", flags=[], link=[], dsched=False),
     "native17": dict(cxx="clang++", std="c++17", flags=[], link=[], dsched=False),
     "asan": dict(cxx="clang++", std="c++14",
@@ -141,10 +141,20 @@ class Lock:
         self.f.close()
 
 
+def compile_one(job):
+    run(job)
+    if "-tsan-instrument-memintrinsics=1" in job:
+        # clang 14 turns memory intrinsics into calls to memcpy/memmove/memset (meant for the TSan runtime's
+        # interceptors); point them at dsched's shims so that aggregate copies are schedule points too
+        obj = job[job.index("-o") + 1]
+        run(["objcopy", "--redefine-sym", "memcpy=__tsan_memcpy", "--redefine-sym", "memmove=__tsan_memmove",
+             "--redefine-sym", "memset=__tsan_memset", obj])
+
+
 def compile_many(jobs):
     """jobs: list of argv lists"""
     with concurrent.futures.ThreadPoolExecutor(max_workers=16) as ex:
-        list(ex.map(run, jobs))
+        list(ex.map(compile_one, jobs))
 
 
 def build_lib(variant, extra_flags=()):
@@ -213,7 +223,7 @@ def build_harness(name, variant, src=None, extra_flags=(), extra_link=(), fine_t
         hdir = os.path.join(VERIF, "harness")
         deps = [src] + parts + [os.path.join(VERIF, "engine/common", f) for f in sorted(os.listdir(os.path.join(VERIF, "engine/common")))
                                 if f.endswith(".h")] + [os.path.join(hdir, f) for f in sorted(os.listdir(hdir)) if f.endswith(".h")]
-        key = rh + file_hash(deps) + " ".join(extra_flags) + " ".join(extra_link) + file_hash([os.path.join(d, "..", "engine", "stamp")])
+        key = rh + file_hash(deps) + " ".join(v["flags"]) + " ".join(extra_flags) + " ".join(extra_link) + file_hash([os.path.join(d, "..", "engine", "stamp")])
         stamp = out + ".stamp"
         if read(stamp) == key and os.path.exists(out):
             return out
